@@ -25,6 +25,10 @@ RULE = (
     "additional_gates; Sycamore (+tabulation in syc_tabulation); GoogleCZ: eject_paulis only with the four Pauli-rotation type "
     "families; IonQ API / Aria / Forte; AQT; Pasqal +-controlled ops) x max_num_passes in {1,2,None}. Non-trivial: output != input "
     "AND the input holds a >=2-qubit operation the target does not accept. "
+    "bare named two-qubit gates (ISWAP/SWAP/CZ/CNOT/CY/SQRT_ISWAP(_INV)/ISWAP_INV/ZZ/XX/YY/FSim variants/SYC/PhasedISwap/MS/givens) at "
+    "a table of special exponents (negative, >1, fractional) occur inside drawn circuits, in 'bare' circuits where every such gate "
+    "is alone in its component (segments separated by no-compile barriers), and exhaustively (bare_known_gates: every name x every "
+    "exponent x targets with default options) so the targets' known-gate fast paths are hit, not only the merged-matrix path. "
     "(b) route: connected graph on 2-7 nodes = drawn spanning tree + drawn extra edges (line/star/ring/tree/sparse/dense; 1/6 as "
     "DiGraph, half of those with every edge in both directions), circuit of 1-2 qubit library gates, SWAPs and 1-2 qubit measurements "
     "(+ optional terminal all-qubit measurement) on <= |V| logical qubits, mapper in {default, LineInitialMapper, "
@@ -34,7 +38,8 @@ RULE = (
     "(c) device_grid / device_vendor: drawn device (GridDevice from a DeviceSpecification proto incl. distractor target sets, from "
     "GridDeviceMetadata, or proto round trip, with drawn qubits / pairs / gate specs; IonQAPIDevice; AQTDevice; PasqalDevice; "
     "PasqalVirtualDevice with drawn positions, qubit type and control radius) and 6-14 operations from a 45-gate pool mixing members / "
-    "non-members, on-/off-device qubits, allowed / disallowed pairs, tags, plus a circuit assembled from them. Non-trivial: at least "
+    "non-members, on-/off-device qubits, allowed / disallowed pairs, tags, plus a circuit assembled from them, plus a circuit of REPEATED equal gates that differ only in tags / qubits (validate_circuit in "
+    "both orders, validate_moment per moment, validate_operation per op must all agree with the per-operation predicate). Non-trivial: at least "
     "one accepted and one rejected operation. Distinct = distinct recipe hash."
 )
 ASSUMPTIONS = [
@@ -243,7 +248,10 @@ def oracle_compile(case):
             "has_ignored": has_ign, "deep": bool(case.get("deep")), "has_cop": any(o["k"] == "cop" for o in case["circ"]["ops"]),
             "has_measure": bool(case["circ"].get("meas")), "three_qubit_op": any(len(op.qubits) == 3 for op in flat_in),
             "passes": str(case.get("passes")), "eject": bool(g.get("eject")), "nonnative_multi": nonnative_multi,
-            "has_additional": bool(g.get("add")), "two_q_out": min(n2_out, 7)}
+            "has_additional": bool(g.get("add")), "two_q_out": min(n2_out, 7),
+            "bare_named_2q": any(o.get("k") == "bare2q" for o in case["circ"]["ops"]),
+            "bare_alone": bool(case["circ"]["ops"]) and case["circ"]["ops"][0].get("k") == "bare2q" and
+            all(o.get("k") in ("bare2q", "named") for o in case["circ"]["ops"])}
 
 
 def oracle_twoq(case):
@@ -531,8 +539,43 @@ def oracle_device_grid(case):
         all_ok = all(ok for _, ok in chosen)
         _expect(dev.validate_circuit, c, all_ok, "circuit of listed operations", "GridDevice.validate_circuit")
         _expect(lambda cc: [dev.validate_moment(m) for m in cc], c, all_ok, "moments of listed operations", "GridDevice.validate_moment")
-    return {"nontrivial": acc > 0 and rej > 0, "accepted_ops": acc, "rejected_ops": rej, "via": case.get("via"),
-            "rej_gate": reasons["gate"] > 0, "rej_qubit": reasons["qubit"] > 0, "rej_pair": reasons["pair"] > 0, "acc_any": acc > 0}
+    # repeated equal gates with different tags / qubits: every bulk path must still decide per operation, in either order
+    tlab = _grid_tagged_circuit(dev, case, qs, off, nq, pairs, specs)
+    return dict({"nontrivial": acc > 0 and rej > 0, "accepted_ops": acc, "rejected_ops": rej, "via": case.get("via"),
+                 "rej_gate": reasons["gate"] > 0, "rej_qubit": reasons["qubit"] > 0, "rej_pair": reasons["pair"] > 0, "acc_any": acc > 0}, **tlab)
+
+
+def _grid_tagged_circuit(dev, case, qs, off, nq, pairs, specs):
+    entries = []
+    for o in case.get("tcirc", []):
+        op = CG.build_device_op(o, qs, off)
+        if op is None:
+            continue
+        ok, why = R.grid_valid(o["g"], o.get("tag", "none"), specs, o["w"][: len(op.qubits)], nq, pairs)
+        _expect(dev.validate_operation, op, ok, why, "GridDevice.validate_operation", f"{o['g']}/{o.get('tag')}")
+        entries.append((op, ok, o["g"], o.get("tag", "none")))
+    if not entries:
+        return {}
+    c = cirq.Circuit()
+    for op, _, _, _ in entries:
+        c.append(op, strategy=cirq.InsertStrategy.NEW if case.get("tcirc_new") else cirq.InsertStrategy.EARLIEST)
+    okmap = {}
+    for op, ok, _, _ in entries:
+        okmap[op] = okmap.get(op, True) and ok
+    all_ok = all(ok for _, ok, _, _ in entries)
+    for label, cc in (("in order", c), ("reversed", cirq.Circuit(list(c)[::-1]))):
+        _expect(dev.validate_circuit, cc, all_ok, f"circuit of repeated gates with varying tags, {label}", "GridDevice.validate_circuit")
+    for m in c:
+        m_ok = all(okmap[op] for op in m)
+        _expect(dev.validate_moment, m, m_ok, "moment of repeated gates with varying tags", "GridDevice.validate_moment")
+    # same gate value accepted with one tag set and rejected with another inside one circuit
+    by_gate = {}
+    for op, ok, key, tag in entries:
+        by_gate.setdefault(key, set()).add(R.grid_member(key, tag, specs))  # membership verdict only (qubits / pairs may differ)
+    mixed = any(len(v) == 2 for v in by_gate.values())
+    first_bad = next((i for i, e in enumerate(entries) if not e[1]), None)
+    return {"tag_decides_in_circuit": mixed, "tcirc_accept_then_reject": bool(first_bad not in (None, 0) and any(e[1] for e in entries[:first_bad])),
+            "tcirc_all_ok": all_ok}
 
 
 def _vendor_qubits(case):
@@ -612,23 +655,52 @@ def oracle_device_vendor(case):
     acc = rej = 0
     reasons = Counter()
     ops = []
-    for o in case["ops"]:
-        op = CG.build_device_op(o, qs, off)
-        if op is None:
-            continue
-        key, w = o["g"], o["w"][: len(op.qubits)]
-        ok, why = True, "ok"
+
+    def reference(key, w):
         if key not in okset:
-            ok, why = False, "gate"
-        elif any(i >= nq for i in w):
-            ok, why = False, "qubit"
-        elif kind == "pasqal_virtual" and key in R.PASQAL_CONTROLLED:
+            return False, "gate"
+        if any(i >= nq for i in w):
+            return False, "qubit"
+        if kind == "pasqal_virtual" and key in R.PASQAL_CONTROLLED:
             a, b = _pos(case, w[0]), _pos(case, w[1])
             planar = float(np.hypot(a[0] - b[0], a[1] - b[1]))
             if (planar > radius + 1e-12) != (_dist3(a, b) > radius + 1e-12):
                 reasons["planar_vs_3d_disagree"] += 1
             if _dist3(a, b) > radius + 1e-12:
-                ok, why = False, "distance"
+                return False, "distance"
+        return True, "ok"
+
+    def circuit_check(chosen, new_moments, tagname):
+        c = cirq.Circuit()
+        for op, _, _ in chosen:
+            c.append(op, strategy=cirq.InsertStrategy.NEW if new_moments else cirq.InsertStrategy.EARLIEST)
+        all_ok = all(ok for _, ok, _ in chosen)
+        why = "operations"
+        if kind == "aqt":
+            keys = [cirq.measurement_key_name(op) for op, _, _ in chosen if cirq.is_measurement(op)]
+            if len(keys) != len(set(keys)):
+                all_ok, why = False, "repeated measurement key"
+        if kind.startswith("pasqal") and all_ok:
+            seen_meas = False
+            for mom in c:
+                if seen_meas and len(mom):
+                    all_ok, why = False, "operation after measurement"
+                if any(cirq.is_measurement(op) for op in mom):
+                    seen_meas = True
+        if kind == "pasqal_virtual" and all_ok:
+            for mom in c:
+                if len(mom) > 1 and not all(cirq.is_measurement(op) for op in mom):
+                    all_ok, why = False, "simultaneous gates"
+        _expect(dev.validate_circuit, c, all_ok, why, f"{name}.validate_circuit", tagname)
+        reasons["circ_" + why] += 1
+        return all_ok
+
+    for o in case["ops"]:
+        op = CG.build_device_op(o, qs, off)
+        if op is None:
+            continue
+        key, w = o["g"], o["w"][: len(op.qubits)]
+        ok, why = reference(key, w)
         if kind.startswith("pasqal") and key == "MEAS_INV" and ok:
             # documented: NotImplementedError for measurements with an invert mask
             try:
@@ -647,28 +719,21 @@ def oracle_device_vendor(case):
     pool = [x for x in ops if x[1]] if case.get("circ_valid_only") and any(x[1] for x in ops) else ops
     chosen = [pool[i % len(pool)] for i in case.get("circ", [])] if pool else []
     if chosen:
-        c = cirq.Circuit()
-        for op, _, _ in chosen:
-            c.append(op, strategy=cirq.InsertStrategy.NEW if case.get("new_moments") else cirq.InsertStrategy.EARLIEST)
-        all_ok = all(ok for _, ok, _ in chosen)
-        why = "operations"
-        if kind == "aqt":
-            keys = [cirq.measurement_key_name(op) for op, _, _ in chosen if cirq.is_measurement(op)]
-            if len(keys) != len(set(keys)):
-                all_ok, why = False, "repeated measurement key"
-        if kind.startswith("pasqal") and all_ok:
-            seen_meas = False
-            for mom in c:
-                if seen_meas and len(mom):
-                    all_ok, why = False, "operation after measurement"
-                if any(cirq.is_measurement(op) for op in mom):
-                    seen_meas = True
-        if kind == "pasqal_virtual" and all_ok:
-            for mom in c:
-                if len(mom) > 1 and not all(cirq.is_measurement(op) for op in mom):
-                    all_ok, why = False, "simultaneous gates"
-        _expect(dev.validate_circuit, c, all_ok, why, f"{name}.validate_circuit")
-        reasons["circ_" + why] += 1
+        circuit_check(chosen, case.get("new_moments"), "listed operations")
+    # repeated equal gates on varying qubits (on-/off-device, near / far): decided per operation, in either order
+    rep = []
+    for o in case.get("tcirc", []):
+        if o["g"] == "MEAS_INV":
+            continue
+        op = CG.build_device_op(o, qs, off)
+        if op is None:
+            continue
+        ok, why = reference(o["g"], o["w"][: len(op.qubits)])
+        _expect(dev.validate_operation, op, ok, why, f"{name}.validate_operation", o["g"])
+        rep.append((op, ok, o["g"]))
+    if rep:
+        circuit_check(rep, case.get("tcirc_new"), "repeated gates")
+        circuit_check(rep[::-1], case.get("tcirc_new"), "repeated gates reversed")
     return {"nontrivial": acc > 0 and rej > 0, "accepted_ops": acc, "rejected_ops": rej, "kind": kind, "rej_gate": reasons["gate"] > 0,
             "rej_qubit": reasons["qubit"] > 0, "rej_distance": reasons["distance"] > 0, "planar_vs_3d_disagree": reasons["planar_vs_3d_disagree"] > 0, "acc_any": acc > 0,
             "circ_rule": any(k.startswith("circ_") and k != "circ_operations" for k in reasons)}
@@ -714,13 +779,17 @@ KNOWN_FEATURES = {
 
 
 SUBCHECKS = [
-    SubCheck("compile_core", CG.compile_cases(CG.CORE_KINDS), oracle_compile, quick=3000, thorough=60000, shards_quick=8, shards_thorough=16,
+    SubCheck("compile_core", CG.compile_cases(CG.CORE_KINDS), oracle_compile, quick=2700, thorough=60000, shards_quick=8, shards_thorough=16,
              essential={"nontrivial": 0.2, "has_ignored": 0.05, "has_cop": 0.1, "native_input": 0.1, "three_qubit_op": 0.05, "deep": 0.03},
              doc="CZ / sqrt-iSWAP / Sycamore / GoogleCZ targets: native + validate, equivalent, no new qubits, ignored ops untouched, counts"),
-    SubCheck("compile_vendor", CG.compile_cases(CG.VENDOR_KINDS), oracle_compile, quick=3000, thorough=60000, shards_quick=8, shards_thorough=16,
+    SubCheck("compile_vendor", CG.compile_cases(CG.VENDOR_KINDS), oracle_compile, quick=2700, thorough=60000, shards_quick=8, shards_thorough=16,
              essential={"nontrivial": 0.15, "three_qubit_op": 0.05}, doc="IonQ API / Aria / Forte / AQT / Pasqal targets, same oracle"),
     SubCheck("twoq", CG.twoq_cases(), oracle_twoq, quick=2000, thorough=40000, shards_quick=4, shards_thorough=16,
              essential={"nontrivial": 0.3}, doc="2-qubit inputs: documented worst-case two-qubit-gate counts, required count exact"),
+    SubCheck("bare_known_gates", None, oracle_compile, quick=0, thorough=0, shards_quick=4, shards_thorough=16, enumerate=CG.bare_table,
+             exhaustive_in=("quick", "thorough"),
+             doc="finite table: named 2-qubit gates x special exponents (negative, >1, fractional), alone in their component (known-gate "
+                 "fast paths of the targets), x target gatesets with default options"),
     SubCheck("sqrt_iswap_required", CG.twoq_cases_single(), oracle_sqrt_iswap_required, quick=600, thorough=10000, shards_quick=2,
              shards_thorough=8, doc="required_sqrt_iswap_count in {0,1,2,3} on one unitary: exact count or ValueError only when needed"),
     SubCheck("syc_tabulation", CG.twoq_cases_single(), oracle_syc_tabulation, quick=150, thorough=6000, shards_quick=1, shards_thorough=4,
@@ -728,7 +797,7 @@ SUBCHECKS = [
     SubCheck("route", CG.route_cases(), oracle_route, quick=3000, thorough=60000, shards_quick=4, shards_thorough=16,
              essential={"swaps_inserted": 0.2, "tagged": 0.2}, doc="RouteCQC: edges, injective initial map, equality up to reported permutation"),
     SubCheck("device_grid", CG.grid_device_cases(), oracle_device_grid, quick=1200, thorough=30000, shards_quick=2, shards_thorough=8,
-             essential={"nontrivial": 0.5, "rej_pair": 0.3, "rej_qubit": 0.15}, doc="GridDevice validate_* iff reference predicate"),
+             essential={"nontrivial": 0.5, "rej_pair": 0.3, "rej_qubit": 0.15, "tag_decides_in_circuit": 0.08, "tcirc_accept_then_reject": 0.05}, doc="GridDevice validate_* iff reference predicate"),
     SubCheck("device_vendor", CG.vendor_device_cases(), oracle_device_vendor, quick=2000, thorough=40000, shards_quick=2, shards_thorough=8,
              essential={"nontrivial": 0.5, "rej_qubit": 0.2, "rej_distance": 0.05, "planar_vs_3d_disagree": 0.02}, doc="IonQAPIDevice / AQTDevice / PasqalDevice / PasqalVirtualDevice validate_* iff predicate"),
 ]
